@@ -6,6 +6,7 @@ import (
 	"encoding/json"
 	"fmt"
 	"reflect"
+	"sort"
 	"strings"
 	"testing"
 	"time"
@@ -494,6 +495,21 @@ func c15Client(m *Model, v *Verdict, rng *RNG) {
 				AuthTime, StartTime, EndTime, RenewTill time.Time
 			}
 			if i >= 0 && j > i && json.Unmarshal([]byte(out[i+len("Service ticket cache:\n"):j]), &held) == nil {
+				// the whole of what the client holds, against the model of NewFromCCache (theorem `client_holds_last`)
+				var items []string
+				for _, h := range held {
+					tkt, key, _ := cl.GetCachedTicket(h.SPN)
+					tb, _ := tkt.Marshal()
+					if h.EndTime.Before(time.Now()) {
+						continue // (GetCachedTicket would try to renew: no such entries are generated)
+					}
+					items = append(items, fmt.Sprintf("%s:%d:%s:%d:%d:%d:%d:%s", XS(h.SPN), key.KeyType, X(key.KeyValue), h.AuthTime.Unix(), h.StartTime.Unix(), h.EndTime.Unix(), h.RenewTill.Unix(), X(tb)))
+				}
+				sort.Strings(items)
+				goLine := strings.TrimRight("ok "+strings.Join(items, " "), " ")
+				if mo := strings.TrimRight(m.Ask("cc.client 1 "+X(file)), " "); mo != goLine {
+					v.Violate("correspondence", "c15:client-model", "what a client built from the cache holds differs from the model of NewFromCCache", map[string]string{"file": X(file), "go": cut(goLine, 2000), "model": cut(mo, 2000)})
+				}
 				for _, h := range held {
 					c, ok := last[h.SPN]
 					if !ok {
